@@ -501,6 +501,10 @@ func (w *World) learn(r Resp) {
 		}
 		w.Secrets = append(w.Secrets, Secret{"mailtoken:" + m.Kind, strings.Join(m.To, ","), m.Tok})
 	}
+	for _, m := range r.LostMails {
+		// never delivered: not a usable token for the scenario, but a secret the scanner must not find anywhere
+		w.Secrets = append(w.Secrets, Secret{"mailtoken:" + m.Kind, strings.Join(m.To, ","), m.Tok})
+	}
 	for _, s := range r.SMSs {
 		w.sc = append(w.sc, s.Code)
 		w.Secrets = append(w.Secrets, Secret{"smscode", s.Number, s.Code})
